@@ -231,19 +231,23 @@ func (d *Dialer) DialContext(ctx context.Context, urlStr string, requestHeader h
 		req.Header["Sec-WebSocket-Protocol"] = []string{strings.Join(d.Subprotocols, ", ")}
 	}
 	for k, vs := range requestHeader {
+		// Header names are case-insensitive: compare the canonical form so
+		// that a caller cannot override the headers owned by the protocol
+		// by spelling them differently (e.g. "Sec-WebSocket-Key").
+		ck := http.CanonicalHeaderKey(k)
 		switch {
-		case k == "Host":
+		case ck == "Host":
 			if len(vs) > 0 {
 				req.Host = vs[0]
 			}
-		case k == "Upgrade" ||
-			k == "Connection" ||
-			k == "Sec-Websocket-Key" ||
-			k == "Sec-Websocket-Version" ||
-			k == "Sec-Websocket-Extensions" ||
-			(k == "Sec-Websocket-Protocol" && len(d.Subprotocols) > 0):
+		case ck == "Upgrade" ||
+			ck == "Connection" ||
+			ck == "Sec-Websocket-Key" ||
+			ck == "Sec-Websocket-Version" ||
+			ck == "Sec-Websocket-Extensions" ||
+			(ck == "Sec-Websocket-Protocol" && len(d.Subprotocols) > 0):
 			return nil, nil, errors.New("websocket: duplicate header not allowed: " + k)
-		case k == "Sec-Websocket-Protocol":
+		case ck == "Sec-Websocket-Protocol":
 			req.Header["Sec-WebSocket-Protocol"] = vs
 		default:
 			req.Header[k] = vs
